@@ -333,7 +333,13 @@ async fn run_hist(h: &Hist) -> HistOut {
     let mut out = HistOut { ops: vec![], seen: HashMap::new(), log: log.clone(), violations: vec![], build_error: None };
     // no retries: an error answer must surface as it is (re-preparation is not a retry)
     let profile = ExecutionProfile::builder().retry_policy(Arc::new(FallthroughRetryPolicy::new())).request_timeout(None).build();
-    let caching = match connect(&cluster, |b| b.default_execution_profile_handle(profile.into_handle())).await {
+    let with_generator = h.seed % 2 == 0;
+    let caching = match connect(&cluster, |b| {
+        let b = b.default_execution_profile_handle(profile.into_handle());
+        if with_generator { b.timestamp_generator(Arc::new(scylla::policies::timestamp_generator::MonotonicTimestampGenerator::new())) } else { b }
+    })
+    .await
+    {
         Ok(s) => Arc::new(CachingSession::<std::collections::hash_map::RandomState>::from(s, 16)),
         Err(e) => {
             out.build_error = Some(e);
@@ -408,10 +414,17 @@ async fn run_hist(h: &Hist) -> HistOut {
                     let fut = async {
                         let session = caching.get_session();
                         match api {
-                            Step::Exec => match session.execute_unpaged(&sel, (pk,)).await {
-                                Err(e) => Err(format!("{e}")),
-                                Ok(r) => r.into_rows_result().map_err(|e| format!("{e}")).and_then(decode),
-                            },
+                            Step::Exec => {
+                                // every third execution carries an explicit timestamp, which must survive a repeat
+                                let mut p = (*sel).clone();
+                                if pk % 3 == 0 {
+                                    p.set_timestamp(Some(pk * 1000 + 7));
+                                }
+                                match session.execute_unpaged(&p, (pk,)).await {
+                                    Err(e) => Err(format!("{e}")),
+                                    Ok(r) => r.into_rows_result().map_err(|e| format!("{e}")).and_then(decode),
+                                }
+                            }
                             Step::ExecCaching => match caching.execute_unpaged(SEL, (pk,)).await {
                                 Err(e) => Err(format!("{e}")),
                                 Ok(r) => r.into_rows_result().map_err(|e| format!("{e}")).and_then(decode),
@@ -517,6 +530,14 @@ fn judge(o: &mut Outcome, h: &Hist, r: &HistOut) {
         }
         if saw_unprepared {
             o.class("reprepared-transparently");
+        }
+        if op.api == "execute_unpaged" && op.pk % 3 == 0 {
+            for s in seen.iter().filter(|s| s.kind == "EXECUTE") {
+                if s.timestamp != Some(op.pk * 1000 + 7) {
+                    o.violation("c14:explicit-timestamp-changed", format!("execute_unpaged of pk {}: the statement's explicit timestamp {} arrived as {:?} ({} frame answered {})", op.pk, op.pk * 1000 + 7, s.timestamp, s.kind, s.answered), replay.clone());
+                }
+            }
+            o.class("explicit-timestamp-checked");
         }
         // never an execution under another id than the one the caller prepared
         for s in &seen {
@@ -686,7 +707,7 @@ pub fn run(ctx: &Ctx) -> Outcome {
         }
     }
     for c in ["ext:metadata-id", "ext:none", "skip-metadata:on", "skip-metadata:off", "step:Exec", "step:ExecPaged", "step:ExecCaching", "step:Batch", "step:Evict", "step:EvictAll",
-        "step:SchemaChange", "step:IdChange", "reprepared-transparently", "rows-verified", "id-change:caller-got-error", "metadata-id:latest-presented"] {
+        "step:SchemaChange", "step:IdChange", "explicit-timestamp-checked", "reprepared-transparently", "rows-verified", "id-change:caller-got-error", "metadata-id:latest-presented"] {
         out.require_class(c);
     }
     out
